@@ -666,6 +666,7 @@ type c13Req struct {
 	Headers []c13Hdr `json:"headers"`
 	Body    string   `json:"body,omitempty"`
 	Peer    string   `json:"peer"`
+	QPath   bool     `json:"qpath,omitempty"` // Envoy only: the documented shape of the CheckRequest: path = request target INCLUDING the query, query empty
 	Pack    string   `json:"pack,omitempty"` // Envoy only: body in the string field ("body", Envoy's default), in raw_body ("raw", ""), in both ("both")
 }
 
@@ -681,6 +682,7 @@ func c13GenReq(r *vf.Rand, rules []c13Rule) c13Case {
 	q := c13Req{Method: vf.Pick(r, c13Methods), TLS: r.Chance(35), Host: vf.Pick(r, c13Hosts), Peer: vf.Pick(r, c13Peers)}
 	q.Query = vf.Pick(r, c13Queries)
 	q.Pack = vf.Pick(r, []string{"raw", "raw", "body", "body", "both"})
+	q.QPath = r.Chance(50)
 
 	if r.Chance(93) {
 		rl := rules[r.Intn(len(rules))]
@@ -979,6 +981,17 @@ func (q c13Req) envoy() *envoy_auth.CheckRequest {
 		scheme = "https"
 	}
 
+	// AttributeContext.HttpRequest as documented: "path ... includes the URL path and query-string", "query
+	// ... is always empty"; heimdall's own gRPC tests fill the two fields separately
+	path, query := q.Path, q.Query
+	if q.QPath {
+		query = ""
+
+		if q.Query != "" {
+			path += "?" + q.Query
+		}
+	}
+
 	// with_request_body.pack_as_bytes of the deployment's Envoy: false (default) = string field, true = raw_body
 	body, raw := "", []byte(nil)
 	if q.Pack == "body" || q.Pack == "both" {
@@ -993,7 +1006,7 @@ func (q c13Req) envoy() *envoy_auth.CheckRequest {
 		Attributes: &envoy_auth.AttributeContext{
 			Request: &envoy_auth.AttributeContext_Request{
 				Http: &envoy_auth.AttributeContext_HttpRequest{
-					Method: q.Method, Scheme: scheme, Host: q.Host, Path: q.Path, Query: q.Query,
+					Method: q.Method, Scheme: scheme, Host: q.Host, Path: path, Query: query,
 					Headers: hdrs, Body: body, RawBody: raw,
 				},
 			},
@@ -1493,6 +1506,27 @@ type c13Obs struct {
 	Env c13EObs `json:"envoy"`
 }
 
+// envoyGluedMatch: what a lookup finds when the query string is glued to the path ("/r0/abc?x=1", finding
+// C13-F11): a trailing wildcard of the rule's path expression swallows "?query" into its capture (the free
+// wildcard without a name captures nothing), a literal last segment does not match.
+func (c c13Case) envoyGluedMatch() ([][2]string, bool) {
+	if c.Rule == nil || !c.Hit || len(c.Rule.Segs) == 0 {
+		return nil, false
+	}
+
+	last := c.Rule.Segs[len(c.Rule.Segs)-1]
+	if strings.HasPrefix(last, "lit:") {
+		return nil, false
+	}
+
+	caps := append([][2]string{}, c.Caps...)
+	if last != "**" && len(caps) > 0 {
+		caps[len(caps)-1][1] += "?" + c.Req.Query
+	}
+
+	return caps, true
+}
+
 // ---------------------------------------------------------------- oracles
 
 // contenttype.NewDecoder(ct) + Decode(body) with heimdall's fall-back to the raw string, as JSON text
@@ -1558,27 +1592,36 @@ func c13CoqSlashes(s string) string {
 //   F1: the Envoy request context hands out ONE view object per request (fix: b2286d8)
 //   F2: grpcv3 Header(name) canonicalises the name          F3: decision/proxy hand all values of a header over
 //   F4: the Envoy context carries a decoded Path and RawPath F6: grpcv3 Header("Host")     F7: grpcv3 Body() of no body
-var c13Fx struct{ F1, F2, F3, F4, F6, F7, F9 bool }
+var c13Fx struct{ F1, F2, F3, F4, F6, F7, F9, F11 bool }
 
 func c13FxCoq() string {
 	return vf.CoqApp("fxs", vf.CoqBool(c13Fx.F1), vf.CoqBool(c13Fx.F2), vf.CoqBool(c13Fx.F3), vf.CoqBool(c13Fx.F4),
-		vf.CoqBool(c13Fx.F6), vf.CoqBool(c13Fx.F7), vf.CoqBool(c13Fx.F9))
+		vf.CoqBool(c13Fx.F6), vf.CoqBool(c13Fx.F7), vf.CoqBool(c13Fx.F9), vf.CoqBool(c13Fx.F11))
 }
 
 func c13Coq(c c13Case, or c13Oracle, o c13Obs) string {
 	q := c.Req
 	hs := vf.CoqListOf(q.Headers, func(h c13Hdr) string { return vf.CoqPair(vf.CoqStr(h.N), vf.CoqStr(h.V)) })
 	lreq := vf.CoqApp("lrq", vf.CoqStr(q.Method), vf.CoqBool(q.TLS), vf.CoqStr(q.Host), vf.CoqStr(q.Path), vf.CoqStr(q.Query),
-		hs, vf.CoqStr(q.Body), vf.CoqStr(q.Peer), map[string]string{"body": "PackBody", "both": "PackBoth"}[q.Pack]+map[bool]string{true: "PackRaw"}[q.Pack != "body" && q.Pack != "both"])
+		hs, vf.CoqStr(q.Body), vf.CoqStr(q.Peer), map[string]string{"body": "PackBody", "both": "PackBoth"}[q.Pack]+map[bool]string{true: "PackRaw"}[q.Pack != "body" && q.Pack != "both"], vf.CoqBool(q.QPath))
 
-	rule := "None"
-	if c.Rule != nil && c.Hit {
+	ruleTerm := func(caps [][2]string) string {
 		rl := c.Rule
-		rule = "(Some " + vf.CoqApp("rul", vf.CoqStr(rl.ID), c13CoqSlashes(rl.Slashes), coqOptCond(rl.Authz),
-			vf.CoqListOf(rl.Steps, c13Step.coq), vf.CoqListOf(rl.Probes, c13Q.coq), coqPairs(c.Caps), rl.redirectCoq()) + ")"
+
+		return "(Some " + vf.CoqApp("rul", vf.CoqStr(rl.ID), c13CoqSlashes(rl.Slashes), coqOptCond(rl.Authz),
+			vf.CoqListOf(rl.Steps, c13Step.coq), vf.CoqListOf(rl.Probes, c13Q.coq), coqPairs(caps), rl.redirectCoq()) + ")"
 	}
 
-	return vf.CoqApp("cs", c13FxCoq(), lreq, rule, vf.CoqStr(or.escPath), vf.CoqStr(or.ct), vf.CoqStr(or.decBody),
+	rule, envRule := "None", "None"
+	if c.Rule != nil && c.Hit {
+		rule = ruleTerm(c.Caps)
+
+		if caps, hit := c.envoyGluedMatch(); hit {
+			envRule = ruleTerm(caps)
+		}
+	}
+
+	return vf.CoqApp("cs", c13FxCoq(), lreq, rule, envRule, vf.CoqStr(or.escPath), vf.CoqStr(or.ct), vf.CoqStr(or.decBody),
 		vf.CoqStr(or.decEmpty), o.Dec.coq(), o.Prx.coq(), o.Env.coq())
 }
 
@@ -1660,6 +1703,16 @@ func c13Tags(c c13Case, o c13Obs) ([]string, bool) {
 
 	if c.Req.Host != strings.ToLower(c.Req.Host) {
 		add("host:mixed-case")
+	}
+
+	if c.Req.QPath {
+		add("envoy-target:query-inside-path")
+
+		if c.Req.Query != "" {
+			add("envoy-target:query-inside-path,non-empty")
+		}
+	} else {
+		add("envoy-target:path-and-query-fields")
 	}
 
 	if c.Req.Method != strings.ToUpper(c.Req.Method) {
@@ -1819,6 +1872,7 @@ func c13Corpus() ([]c13Rule, []c13Case) {
 	}
 	cs := func(ri int, caps [][2]string, r c13Req) c13Case { return c13Case{Rule: &rules[ri], Hit: true, Caps: caps, Req: r} }
 	packed := func(p string, c c13Case) c13Case { c.Req.Pack = p; return c }
+	qpath := func(c c13Case) c13Case { c.Req.QPath = true; return c }
 	cp := func(kv ...string) [][2]string {
 		out := [][2]string{}
 		for i := 0; i+1 < len(kv); i += 2 {
@@ -1866,6 +1920,11 @@ func c13Corpus() ([]c13Rule, []c13Case) {
 		cs(4, nil, rq("GET", "A.Example.COM", "/c4/%2e%2E/x", "", false, "")),
 		cs(0, cp("name", ".."), rq("get", "a.example.com", "/c0/..", "", false, "")),
 		cs(9, cp("a", "abc", "b", "a$$$escaped-slash$$$b%20c"), rq("GET", "a.example.com", "/c9/abc/x/a$$$escaped-slash$$$b%20c", "", false, "", "X-Role", "admin")),
+		// 32, 33: C13-F11 — the request target conveyed the documented way (query inside `path`): a wildcard swallows
+		// "?x=1" into the capture, a literal route misses
+		qpath(cs(0, cp("name", "abc"), rq("GET", "a.example.com", "/c0/abc", "x=1", false, ""))),
+		qpath(cs(3, nil, rq("GET", "a.example.com", "/c3/lit", "x=1", false, ""))),
+		qpath(cs(3, nil, rq("GET", "a.example.com", "/c3/lit", "", false, ""))),
 	}
 
 	return rules, cases
@@ -1961,6 +2020,10 @@ func TestVerifC13(t *testing.T) {
 
 	if s := c13ObserveEnvoy(capps.env, ccases[25]); len(s.View) > 0 {
 		c13Fx.F9 = s.View[0].S == `{"user":1}` // the body conveyed in the string field is decoded
+	}
+
+	if s := c13ObserveEnvoy(capps.env, ccases[32]); len(s.View) > 0 {
+		c13Fx.F11 = s.View[0].S == "abc" // the query string inside `path` does not end up in the capture
 	}
 
 	for _, c := range ccases {
@@ -2172,7 +2235,7 @@ func TestVerifC13Deployed(t *testing.T) {
 			"\r\nX-Forwarded-Proto: "+scheme+"\r\nX-Forwarded-Host: "+q.Host+"\r\nX-Forwarded-Uri: "+target+"\r\n\r\n", q.Peer, false)
 
 		lreq := vf.CoqApp("lrq", vf.CoqStr(q.Method), vf.CoqBool(q.TLS), vf.CoqStr(q.Host), vf.CoqStr(q.Path), vf.CoqStr(q.Query),
-			"[]", vf.CoqStr(""), vf.CoqStr(q.Peer), "PackRaw")
+			"[]", vf.CoqStr(""), vf.CoqStr(q.Peer), "PackRaw", "false")
 
 		tags := []string{"tp:query=" + q.Query, fmt.Sprintf("tp:status=%d/%d", od.Status, ot.Status)}
 		if od.Query == ot.Query {
